@@ -964,7 +964,8 @@ def gen_package(rng: random.Random, idx: int, *, style="plaintext", nmods=3, ree
         long_name = f"public_interface_layer_{names.num()}{tag}"
         deep_dir, deep_dotted = f"{dirs[1][0]}/d{names.num()}", f"{dirs[1][1]}.d{names.n:03d}"
         deep_dir = f"{dirs[1][0]}/d{names.n:03d}"
-        shared = Cls(names.fresh("cls"), methods=[Func(names.fresh("func"), [], ret=Ann("int"))])
+        shared = Cls(names.fresh("cls"), methods=[Func(names.fresh("func"), [], ret=Ann("int")),
+                                                  Func(f"make_{names.n:03d}{tag}", [], ret=Ann("int"), deco="static")])
         hname = "_" + names.fresh("mod").lstrip("_")
         deep_home = rng.random() < 0.7     # a home below the re-exporting package: the class moves there; otherwise it stays
         hd, hdd = dirs[1] if deep_home else dirs[0]
